@@ -197,6 +197,9 @@ func run(id, tier string) int {
 			out := filepath.Join(tmp, fmt.Sprintf("r%d.json", i))
 			cmd := exec.Command(self, "worker", id, tier, strconv.Itoa(i), strconv.Itoa(n), out)
 			cmd.Env = append(os.Environ(), "GOMAXPROCS=2", "VERIF_WORKER=1", "GOGC=400")
+			if ck.Race {
+				cmd.Env = append(cmd.Env, "GORACE=halt_on_error=0 exitcode=0 atexit_sleep_ms=0 log_path="+filepath.Join(tmp, fmt.Sprintf("race%d", i)))
+			}
 			logf := filepath.Join(tmp, fmt.Sprintf("w%d.log", i))
 			lf, _ := os.Create(logf)
 			cmd.Stdout, cmd.Stderr = lf, lf
@@ -284,10 +287,16 @@ func run(id, tier string) int {
 		if ck.Replay != nil {
 			for r := 0; r < 5; r++ {
 				rcmd := exec.Command(self, "replay", id, file)
+				if ck.Race {
+					rcmd.Env = append(os.Environ(), "GORACE=halt_on_error=0 exitcode=0 atexit_sleep_ms=0 log_path="+filepath.Join(tmp, fmt.Sprintf("replay%d", r)))
+				}
 				out, rerr := rcmd.CombinedOutput()
 				crashed := false
 				if ee, ok := rerr.(*exec.ExitError); ok && ee.ExitCode() != 1 && ee.ExitCode() != 2 {
 					crashed = true // the replay process itself died: the crash reproduces
+				}
+				if ck.ReplayLoose && strings.Contains(string(out), "REPLAY-VIOLATION key=") {
+					continue
 				}
 				if !strings.Contains(string(out), "REPLAY-VIOLATION key="+k+" ") && !(k == "crash" && crashed) {
 					fmt.Printf("HARNESS-NONDETERMINISM property=%s key=%s replay %d did not reproduce:\n%s\n", id, k, r, tailStr(string(out), 1500))
